@@ -440,6 +440,9 @@ func (m *Muxer) Start() error {
 func (m *Muxer) Close() {
 	m.mutex.Lock()
 	m.closed = true
+	for _, stream := range m.streams {
+		stream.closed = true
+	}
 	m.mutex.Unlock()
 	verifPoint("close.afterMark")
 
